@@ -141,8 +141,14 @@ Definition xterm_seq (k : kname) (mods : N) (alt_form : bool) : option (list N) 
     match k with
     | KBackspace => if mods =? 0 then Some [127] else None
     | KChar c =>
-        if (mods =? 2) && (((97 <=? c) && (c <=? 122)) || ((48 <=? c) && (c <=? 57))) then Some [27; c]
+        (* Alt + printable ASCII other than upper case: ESC c (not ESC [ ] _ : introducers) *)
+        if (mods =? 2) && (33 <=? c) && (c <=? 126) && negb ((65 <=? c) && (c <=? 90))
+           && negb ((c =? 91) || (c =? 93) || (c =? 95)) then Some [27; c]
+        (* Alt + Shift + letter: ESC and the upper case letter (not ESC O, ESC P: introducers) *)
+        else if (mods =? 3) && (97 <=? c) && (c <=? 122) && negb ((c =? 111) || (c =? 112)) then Some [27; c - 32]
+        (* Ctrl + letter / Ctrl + space: the control code *)
         else if (mods =? 4) && (97 <=? c) && (c <=? 122) then Some [c - 96]
+        else if (mods =? 4) && (c =? 32) then Some [0]
         else None
     | _ =>
         match (if alt_form then None else final_byte k), tilde_code k alt_form with
